@@ -5,6 +5,7 @@ import (
 	"strconv"
 	"strings"
 	"sync"
+	"sync/atomic"
 )
 
 var reservedWords = map[string]bool{
@@ -165,7 +166,14 @@ func (p *parser) tableName() (string, error) {
 
 var nameCommentRE = regexp.MustCompile(`^\s*--\s*name:\s*(\w+)`)
 
-var parseCache sync.Map // sql text -> *parseResult
+var (
+	parseCache     sync.Map // sql text -> *parseResult
+	parseCacheSize atomic.Int64
+)
+
+// parseCacheLimit bounds the process-wide parse cache (texts with inlined literals, as sent by
+// simple-protocol clients, are all distinct).
+const parseCacheLimit = 20000
 
 type parseResult struct {
 	stmts []*stmt
@@ -179,6 +187,10 @@ func parseSQL(sql string) ([]*stmt, error) {
 		return pr.stmts, pr.err
 	}
 	stmts, err := parseSQLUncached(sql)
+	if parseCacheSize.Add(1) > parseCacheLimit {
+		parseCache.Range(func(k, _ any) bool { parseCache.Delete(k); return true })
+		parseCacheSize.Store(0)
+	}
 	parseCache.Store(sql, &parseResult{stmts: stmts, err: err})
 	return stmts, err
 }
